@@ -16,6 +16,7 @@ use quote::ToTokens;
 pub fn run(item: &str, repo: &str, out: &str) -> Option<Result<String, String>> {
     match item {
         "softlock-table" => Some(softlock_table(repo, out)),
+        "softlock-policy" => Some(softlock_policy(repo, out)),
         _ => None,
     }
 }
@@ -447,5 +448,221 @@ fn softlock_table(repo: &str, out: &str) -> Result<String, String> {
     write_generated(out, "SoftLockTable", &format!("{rel} (ONEDAY, failure_next_state, apply_time_step, record_failure, is_valid)"), &body)?;
     Ok(format!(
         "SoftLockTable: ONEDAY={oneday} password rows={rows_s} totp=({totp_cap},{totp_delay}) webauthn=({wan_reset},{wan_unlock})"
+    ))
+}
+
+// ---------------------------------------------------------------------------------------------
+// `softlock-policy`: `Credential::softlock_policy` (credential/mod.rs) as a decision tree per
+// `CredentialType` variant, plus the source of the TOTP step (`.min()`/`.max()` over `t.step`,
+// `unwrap_or(TOTP_DEFAULT_STEP)`).
+
+/// Decision tree of one match arm.
+enum PTree {
+    Leaf(&'static str),
+    If(&'static str, Box<PTree>, Box<PTree>),
+}
+
+impl PTree {
+    fn lean(&self) -> String {
+        match self {
+            PTree::Leaf(k) => format!("(.leaf .{k})"),
+            PTree::If(c, t, e) => format!("(.ite .{c} {} {})", t.lean(), e.lean()),
+        }
+    }
+    fn uses_totp_leaf(&self) -> bool {
+        match self {
+            PTree::Leaf(k) => *k == "totpStep",
+            PTree::If(_, t, e) => t.uses_totp_leaf() || e.uses_totp_leaf(),
+        }
+    }
+    fn has_cond(&self) -> bool {
+        matches!(self, PTree::If(..))
+    }
+}
+
+fn lower_first(s: &str) -> String {
+    let mut c = s.chars();
+    match c.next() {
+        Some(f) => f.to_lowercase().collect::<String>() + c.as_str(),
+        None => String::new(),
+    }
+}
+
+/// `pick`: Some(true) = `.min()`, Some(false) = `.max()` once a `let min_step = …` was seen.
+fn policy_tree(e: &syn::Expr, mfa: bool, pick: &mut Option<bool>) -> Result<PTree, String> {
+    match e {
+        syn::Expr::Block(b) => policy_block(&b.block, mfa, pick),
+        syn::Expr::If(i) => {
+            if !mfa {
+                return Err(format!("condition in an arm that binds neither totp nor wan: `{}`", toks(&i.cond)));
+            }
+            let c = match toks(&i.cond).as_str() {
+                "! totp . is_empty ()" => "totpNonEmpty",
+                "! wan . is_empty ()" => "wanNonEmpty",
+                "totp . is_empty ()" => "totpEmpty",
+                "wan . is_empty ()" => "wanEmpty",
+                o => return Err(format!("softlock_policy: unknown condition `{o}`")),
+            };
+            let t = policy_block(&i.then_branch, mfa, pick)?;
+            let e = match &i.else_branch {
+                Some((_, eb)) => policy_tree(eb, mfa, pick)?,
+                None => return Err("softlock_policy: if without else".into()),
+            };
+            Ok(PTree::If(c, Box::new(t), Box::new(e)))
+        }
+        syn::Expr::Path(_) => match path_string(e).as_deref() {
+            Some("CredSoftLockPolicy::Password") => Ok(PTree::Leaf("password")),
+            Some("CredSoftLockPolicy::Webauthn") => Ok(PTree::Leaf("webauthn")),
+            Some("CredSoftLockPolicy::Unrestricted") => Ok(PTree::Leaf("unrestricted")),
+            o => Err(format!("softlock_policy: unknown policy `{o:?}`")),
+        },
+        syn::Expr::Call(c) if path_string(&c.func).as_deref() == Some("CredSoftLockPolicy::Totp") => {
+            if c.args.len() != 1 || path_string(&c.args[0]).as_deref() != Some("min_step") || pick.is_none() {
+                return Err(format!("softlock_policy: Totp step is not the `min_step` computed from the tokens: `{}`", toks(e)));
+            }
+            Ok(PTree::Leaf("totpStep"))
+        }
+        o => Err(format!("softlock_policy: unexpected expression `{}`", toks(o))),
+    }
+}
+
+fn policy_block(b: &syn::Block, mfa: bool, pick: &mut Option<bool>) -> Result<PTree, String> {
+    match b.stmts.as_slice() {
+        [syn::Stmt::Expr(e, None)] => policy_tree(e, mfa, pick),
+        [l @ syn::Stmt::Local(_), syn::Stmt::Expr(e, None)] if mfa => {
+            let got = toks(l);
+            let shape = |m: &str| {
+                format!("let min_step = totp . iter () . map (| (_ , t) | t . step) . {m} () . unwrap_or (TOTP_DEFAULT_STEP) ;")
+            };
+            let p = if got == shape("min") {
+                true
+            } else if got == shape("max") {
+                false
+            } else {
+                return Err(format!("softlock_policy: step computation changed: `{got}`"));
+            };
+            if pick.is_some() && *pick != Some(p) {
+                return Err("softlock_policy: two different step computations".into());
+            }
+            *pick = Some(p);
+            match policy_tree(e, mfa, pick)? {
+                t @ PTree::Leaf("totpStep") => Ok(t),
+                _ => Err("softlock_policy: `min_step` computed but the block does not end in `Totp(min_step)`".into()),
+            }
+        }
+        _ => Err(format!("softlock_policy: unexpected block `{}`", toks(b))),
+    }
+}
+
+fn softlock_policy(repo: &str, out: &str) -> Result<String, String> {
+    let rel = "server/lib/src/credential/mod.rs";
+    let ast = parse_file(repo, rel)?;
+    // ---- enum CredentialType: variants in declaration order, PasswordMfa field types
+    let en = ast
+        .items
+        .iter()
+        .find_map(|i| match i {
+            syn::Item::Enum(e) if e.ident == "CredentialType" => Some(e),
+            _ => None,
+        })
+        .ok_or("enum CredentialType not found")?;
+    let variants: Vec<String> = en.variants.iter().map(|v| v.ident.to_string()).collect();
+    let mfa_fields: Vec<String> = en
+        .variants
+        .iter()
+        .find(|v| v.ident == "PasswordMfa")
+        .ok_or("CredentialType::PasswordMfa not found")?
+        .fields
+        .iter()
+        .map(|f| toks(&f.ty))
+        .collect();
+    if mfa_fields.len() != 4 || mfa_fields[1] != "HashMap < String , Totp >" || !mfa_fields[2].starts_with("HashMap < String ,") {
+        return Err(format!("CredentialType::PasswordMfa fields changed: {mfa_fields:?}"));
+    }
+    // ---- TOTP_DEFAULT_STEP and `step` field of Totp
+    let tast = parse_file(repo, "server/lib/src/credential/totp.rs")?;
+    let default_step = eval_int(&find_const(&tast, "TOTP_DEFAULT_STEP").ok_or("const TOTP_DEFAULT_STEP not found")?, &|_| None)?;
+
+    // ---- softlock_policy
+    let f = find_fn(&ast, "Credential::softlock_policy")?;
+    let args: Vec<String> = f.sig.inputs.iter().map(|a| toks(a)).collect();
+    if args != ["& self"] || toks(&f.sig.output) != "-> CredSoftLockPolicy" {
+        return Err(format!("softlock_policy signature changed: {args:?} {}", toks(&f.sig.output)));
+    }
+    let m = match only_expr(&f.block)? {
+        syn::Expr::Match(m) if toks(&m.expr) == "& self . type_" => m,
+        o => return Err(format!("softlock_policy is not `match &self.type_ {{..}}`: `{}`", toks(o))),
+    };
+    let mut trees: Vec<(String, PTree)> = vec![];
+    let mut pick: Option<bool> = None;
+    for arm in &m.arms {
+        if arm.guard.is_some() {
+            return Err("softlock_policy: guarded arm".into());
+        }
+        let pats: Vec<&syn::Pat> = match &arm.pat {
+            syn::Pat::Or(o) => o.cases.iter().collect(),
+            p => vec![p],
+        };
+        let mut names = vec![];
+        let mut mfa = false;
+        for p in pats {
+            let ts = match p {
+                syn::Pat::TupleStruct(ts) => ts,
+                o => return Err(format!("softlock_policy: arm pattern `{}` is not a CredentialType variant", toks(o))),
+            };
+            let segs: Vec<String> = ts.path.segments.iter().map(|s| s.ident.to_string()).collect();
+            if segs.len() != 2 || segs[0] != "CredentialType" {
+                return Err(format!("softlock_policy: arm pattern `{}`", toks(p)));
+            }
+            if segs[1] == "PasswordMfa" {
+                let binds: Vec<String> = ts.elems.iter().map(|e| toks(e)).collect();
+                if binds.len() != 4 || binds[1] != "totp" || binds[2] != "wan" {
+                    return Err(format!("softlock_policy: PasswordMfa pattern binds {binds:?}, expected (_, totp, wan, _)"));
+                }
+                mfa = true;
+            }
+            names.push(segs[1].clone());
+        }
+        if mfa && names.len() != 1 {
+            return Err("softlock_policy: PasswordMfa shares an arm".into());
+        }
+        for n in names {
+            let t = policy_tree(&arm.body, mfa, &mut pick)?;
+            if !mfa && (t.has_cond() || t.uses_totp_leaf()) {
+                return Err(format!("softlock_policy: arm {n} uses token data it does not bind"));
+            }
+            trees.push((n, t));
+        }
+    }
+    let mut got: Vec<&str> = trees.iter().map(|x| x.0.as_str()).collect();
+    let mut want: Vec<&str> = variants.iter().map(|s| s.as_str()).collect();
+    got.sort();
+    want.sort();
+    if got != want {
+        return Err(format!("softlock_policy arms {got:?} do not cover the variants of CredentialType {want:?} exactly once"));
+    }
+    let mut body = String::from("namespace Kanidm.Gen.SoftLockPolicy\n");
+    body += "/-- Result of `softlock_policy` before the Totp step is filled in. -/\ninductive PolKind | password | totpStep | webauthn | unrestricted\n  deriving DecidableEq, Repr\n";
+    body += "/-- Conditions on the `PasswordMfa(_, totp, wan, _)` maps. -/\ninductive Cond | totpNonEmpty | wanNonEmpty | totpEmpty | wanEmpty\n  deriving DecidableEq, Repr\n";
+    body += "inductive Tree | leaf (k : PolKind) | ite (c : Cond) (t e : Tree)\n  deriving DecidableEq, Repr\n";
+    body += "/-- `enum CredentialType`, variants in declaration order. -/\ninductive CredKind\n";
+    for v in &variants {
+        body += &format!("  | {}\n", lower_first(v));
+    }
+    body += "  deriving DecidableEq, Repr\n";
+    body += "/-- `Credential::softlock_policy`: the body of the arm matching each variant. -/\ndef policyTree : CredKind → Tree\n";
+    for v in &variants {
+        let t = &trees.iter().find(|x| &x.0 == v).ok_or("internal")?.1;
+        body += &format!("  | .{} => {}\n", lower_first(v), t.lean());
+    }
+    let pick = pick.ok_or("softlock_policy: no Totp step computation found")?;
+    body += &format!("/-- `totp.iter().map(|(_, t)| t.step).{}()` : `true` = min, `false` = max. -/\ndef totpStepIsMin : Bool := {pick}\n", if pick { "min" } else { "max" });
+    body += &format!("/-- `.unwrap_or(TOTP_DEFAULT_STEP)` -/\ndef totpDefaultStep : Nat := {default_step}\n");
+    body += "end Kanidm.Gen.SoftLockPolicy\n";
+    write_generated(out, "SoftLockPolicy", &format!("{rel} (enum CredentialType, Credential::softlock_policy) and credential/totp.rs (TOTP_DEFAULT_STEP)"), &body)?;
+    Ok(format!(
+        "SoftLockPolicy: {} step={} default={default_step}",
+        trees.iter().map(|(n, t)| format!("{n}→{}", t.lean())).collect::<Vec<_>>().join(" "),
+        if pick { "min" } else { "max" }
     ))
 }
